@@ -161,6 +161,7 @@ def normalise(tree):
                         continue
                     i += 1
     _slice_calls_to_slices(tree)
+    _with_names_to_calls(tree)
     _sink_attribute_copies(tree)
     _split_parallel_assignments(tree)
     _raising_loops_to_any(tree)
@@ -257,6 +258,43 @@ def _self_properties_to_attributes(tree):
                 if isinstance(n, ast.Attribute) and isinstance(n.ctx, ast.Load) and isinstance(n.value, ast.Name) and \
                         n.value.id == 'self' and n.attr in props:
                     n.attr = props[n.attr]
+
+
+def _with_names_to_calls(tree):
+    """`m = <call>` ... `with m as x:` -> `with <call> as x:` when `m` is bound once, used only as that context
+    expression, and everything between the binding and the `with` in the same statement list is another such binding
+    consumed by the same `with` (creating a context-manager object does nothing until it is entered; the calls keep
+    their relative order)."""
+    for fn in [n for n in ast.walk(tree) if isinstance(n, (ast.FunctionDef, ast.AsyncFunctionDef))]:
+        for parent in ast.walk(fn):
+            for fld in ('body', 'orelse', 'finalbody'):
+                body = getattr(parent, fld, None)
+                if not (isinstance(body, list) and body and isinstance(body[0], ast.stmt)):
+                    continue
+                for w in [x for x in body if isinstance(x, ast.With)]:
+                    wi = body.index(w)
+                    names = [it.context_expr.id for it in w.items if isinstance(it.context_expr, ast.Name)]
+                    if not names:
+                        continue
+                    # the run of statements immediately before the with
+                    j = wi
+                    binds = {}
+                    while j > 0:
+                        a = body[j - 1]
+                        if isinstance(a, ast.Assign) and len(a.targets) == 1 and isinstance(a.targets[0], ast.Name) and \
+                                a.targets[0].id in names and isinstance(a.value, ast.Call) and a.targets[0].id not in binds:
+                            binds[a.targets[0].id] = a
+                            j -= 1
+                        else:
+                            break
+                    for nm, a in binds.items():
+                        uses = [n for n in ast.walk(fn) if isinstance(n, ast.Name) and n.id == nm]
+                        if len(uses) != 2:          # the store and the context expression
+                            continue
+                        for it in w.items:
+                            if isinstance(it.context_expr, ast.Name) and it.context_expr.id == nm:
+                                it.context_expr = a.value
+                        body.remove(a)
 
 
 def _sink_attribute_copies(tree):
